@@ -231,7 +231,7 @@ pub fn run(cx: &mut Ctx) {
     }
 
     // --------------------------------------------------------------------- beforenm / precalc
-    let nbox = cx.tier.pick(8usize, 3000, 100_000);
+    let nbox = cx.tier.pick(8usize, 3000, 400_000);
     for i in 0..nbox {
         idx += 1;
         if !cx.mine(idx) {
@@ -272,7 +272,7 @@ pub fn run(cx: &mut Ctx) {
     }
 
     // ------------------------------------------------------------------------------------- kx
-    let nkx = cx.tier.pick(8usize, 2000, 60_000);
+    let nkx = cx.tier.pick(8usize, 2000, 200_000);
     for i in 0..nkx {
         idx += 1;
         if !cx.mine(idx) {
